@@ -305,3 +305,149 @@ if __name__ == "__main__":
             print("mutant %-62s cases %4d  flagged(violates) %4d  undecided %d" % (name, ncase, caught, und))
         ra = run_acc(300, seed + 7)
         print("after restoring the original source: wrong", len(ra["wrong"]), "undecided", len(ra["undecided"]))
+
+
+# ======================================================================================================
+# rigorous decisions for the property checks (C12 / C13 / C17 / C43)
+# ======================================================================================================
+from fractions import Fraction
+
+
+def ask(lines):
+    """one driver process, many lines"""
+    return Driver().ask(lines) if lines else []
+
+
+def acc_decide(reqs, klo=3, khi=4):
+    """reqs: list of driver request PREFIXES without the trailing `<p> <k>` pair, each with its p:  (prefix, p).
+    Strict reading of "relative error below 2^(khi-p)":
+       acc(k=klo) = ok                     -> 'ok'        (error <= 2^(klo-p)|f| < 2^(khi-p)|f|, or f = 0 = y)
+       else acc(k=khi) = violates          -> 'violates'  (error > 2^(khi-p)|f|: the property fails)
+       else acc(k=khi) = ok                -> 'boundary'  (2^(klo-p) < rel.err <= 2^(khi-p): strictness not decided)
+       else                                -> 'undecided'
+    Two batched passes through the driver."""
+    first = ask(["%s %d %d" % (pre, p, klo) for pre, p in reqs])
+    res = list(first)
+    idx = [i for i, a in enumerate(first) if a != "ok"]
+    second = ask(["%s %d %d" % (reqs[i][0], reqs[i][1], khi) for i in idx])
+    for i, a in zip(idx, second):
+        res[i] = "violates" if a == "violates" else ("boundary" if a == "ok" else "undecided")
+    return res
+
+
+def encl_frac(ans):
+    """(lo, hi) as Fractions from a `P:` answer, None for `N:`"""
+    e = parse_encl(ans)
+    if e is None:
+        return None
+    return (Fraction(e[0]) * Fraction(2) ** e[1], Fraction(e[2]) * Fraction(2) ** e[3])
+
+
+def round_frac(q, prec, rnd):
+    """correct rounding of the rational q to prec bits: (man, exp) with man odd or 0 (exact integer arithmetic)"""
+    if q == 0:
+        return (0, 0)
+    sign = q < 0
+    a = -q if sign else q
+    n, d = a.numerator, a.denominator
+    e = n.bit_length() - d.bit_length() - prec          # a*2^-e has about prec bits
+    while True:
+        num, den = (n, d << e) if e >= 0 else (n << -e, d)
+        m, r = divmod(num, den)
+        if m.bit_length() > prec:
+            e += 1
+            continue
+        if m.bit_length() < prec:
+            e -= 1
+            continue
+        break
+    if r:
+        mode = rnd
+        if mode == "f":
+            mode = "u" if sign else "d"
+        elif mode == "c":
+            mode = "d" if sign else "u"
+        if mode == "u":
+            m += 1
+        elif mode == "n":
+            if 2 * r > den or (2 * r == den and m & 1):
+                m += 1
+    if m:
+        while not m & 1:
+            m >>= 1
+            e += 1
+    return (-m if sign else m, e)
+
+
+_CONST = {
+    # name -> (driver lines at working precision wp, exact rational combination of the enclosures)
+    "pi": (lambda wp: ["encl pi %d 0 0" % wp], lambda E: E[0]),
+    "e": (lambda wp: ["encl exp %d 1 0" % wp], lambda E: E[0]),
+    "ln2": (lambda wp: ["encl log %d 2 0" % wp], lambda E: E[0]),
+    "ln10": (lambda wp: ["encl log %d 10 0" % wp], lambda E: E[0]),
+    "degree": (lambda wp: ["encl pi %d 0 0" % wp], lambda E: (E[0][0] / 180, E[0][1] / 180)),
+    "phi": (lambda wp: ["encl sqrt %d 5 0" % wp], lambda E: ((E[0][0] + 1) / 2, (E[0][1] + 1) / 2)),
+}
+
+
+def decide_constants(items):
+    """items: list of (name, prec, rnd, mpf_tuple).  Returns a list of (verdict, detail) with verdict in
+    ok / violates / undecided:
+      * ok: the tuple is THE correctly rounded prec-bit value of the constant in mode rnd (for f/c/d/u this includes
+        being on the correct side); decided when both ends of a rigorous enclosure round to the same value;
+      * violates: both ends round to the same value and the tuple differs from it (detail says whether a directed
+        result is on the wrong side or only not the nearest);
+      * undecided: the enclosures (up to 8*prec+1024 bits) straddle a rounding boundary, or the name is unknown.
+    The enclosures come from the verified evaluator (`encl` op: piI, expI 1, logI 2, logI 10, sqrtI 5); the rational
+    post-processing (÷180, (1+√5)/2, rounding) is exact integer arithmetic in Python."""
+    out = [None] * len(items)
+    todo = list(range(len(items)))
+    for mult, add in ((1, 40), (2, 128), (8, 1024)):
+        if not todo:
+            break
+        lines, owner = [], []
+        for i in todo:
+            name, prec, rnd, t = items[i]
+            if name not in _CONST:
+                out[i] = ("undecided", "no verified reference for %s" % name)
+                continue
+            for l in _CONST[name][0](mult * prec + add):
+                lines.append(l); owner.append(i)
+        answers = ask(lines)
+        per = {}
+        for i, a in zip(owner, answers):
+            per.setdefault(i, []).append(encl_frac(a))
+        nxt = []
+        for i in todo:
+            if out[i] is not None and i not in per:
+                continue
+            name, prec, rnd, t = items[i]
+            E = per.get(i)
+            if not E or any(e is None for e in E):
+                out[i] = ("undecided", "no enclosure"); continue
+            lo, hi = _CONST[name][1](E)
+            rl, rh = round_frac(lo, prec, rnd), round_frac(hi, prec, rnd)
+            if rl != rh:
+                out[i] = None
+                nxt.append(i); continue
+            s, man, ex, bc = t
+            got = (-int(man) if s else int(man), int(ex))
+            if got == rl and (man == 0 or bc == int(man).bit_length()):
+                out[i] = ("ok", "")
+            else:
+                g = Fraction(got[0]) * Fraction(2) ** got[1]
+                side = ""
+                if rnd in ("f", "d") and g > hi:
+                    side = "above the constant in a round-down mode; "
+                if rnd in ("c", "u") and g < lo:
+                    side = "below the constant in a round-up mode; "
+                out[i] = ("violates", "%sreturned %d*2^%d, correctly rounded value is %d*2^%d" % (side, got[0], got[1], rl[0], rl[1]))
+        todo = nxt
+    for i in todo:
+        out[i] = ("undecided", "enclosure straddles a rounding boundary up to 8*prec+1024 bits")
+    return out
+
+
+def decide_constant(name, prec, rnd, mpf_tuple):
+    """single-item form of decide_constants: 'ok' | 'violates' | 'undecided'"""
+    return decide_constants([(name, prec, rnd, mpf_tuple)])[0][0]
